@@ -2,9 +2,10 @@
     bool, option, list, prod, unit, sumbool map to OCaml's own types; [nat] stays Peano; there is
     no [Extract Constant]. *)
 From Coq Require Import Extraction ExtrOcamlBasic.
-From TP Require QModel Mon_C20 PObs.
+From TP Require QModel Mon_C20 PObs PMon.
 Extraction Language OCaml.
 Separate Extraction
   QModel.init QModel.observe1 QModel.step QModel.enabled
   Mon_C20.m_init Mon_C20.m_step Mon_C20.ok_C20
-  PObs.observe1 PObs.observe PModel.init PModel.step PModel.enabled.
+  PObs.observe1 PObs.observe PModel.init PModel.step PModel.enabled
+  PMon.mon_run PMon.trk_init PMon.ok_prop.
